@@ -20,6 +20,15 @@ RELABEL = {
     'check2_plain': {'*': ['C14', 'C12']}, 'extern_ctx': {'*': ['C14']}, 'trace_rules': {'*': ['C19']},
     'position_skip': {'*': ['C09']}, 'position_string': {'*': ['C09']}, 'position_root': {'*': ['C09']}, 'position_root_bom': {'*': ['C09']},
     'string_rule': {'C09': ['C09'], '*': ['C02']}, 'char_rule': {'C14': ['C14'], 'C10': ['C10'], '*': ['C01']},
+    'position_enum_override': {'*': ['C09']}, 'check_string': {'*': ['C14']}, 'check_override': {'*': ['C14']},
+    'leftrec_indirect': {'C10': ['C10'], '*': ['C07']}, 'extern_string': {'*': ['C14']},
+    'include_nested': {'C01': ['C13', 'C08'], '*': ['C13']}, 'include_choice_closure': {'*': ['C13']},
+    'memo_position': {'C06': ['C06'], 'C09': ['C09', 'C05'], '*': ['C05']}, 'derives_empty': {'*': ['C01']},
+    'leftrec_check': {'C10': ['C10'], '*': ['C07', 'C14']}, 'leftrec_memoize': {'C10': ['C10'], 'C01': ['C07', 'C05', 'C01'], '*': ['C07', 'C05']},
+    'ws_literal_leading_space': {'C01': ['C08', 'C01'], '*': ['C08']}, 'ws_custom_literal_space': {'*': ['C08']},
+    'string_skipping': {'C09': ['C09', 'C08'], '*': ['C08']}, 'memo_ws_from_noskip': {'C09': ['C09', 'C05'], '*': ['C05']},
+    'position_closure': {'*': ['C09', 'C08']}, 'string_override': {'*': ['C02']}, 'optional_nested': {'C02': ['C02'], 'C10': ['C10'], '*': ['C01']},
+    'include_fieldless_check': {'*': ['C13']}, 'include_chain': {'*': ['C13']},
     'enum_field': {'*': ['C02']}, 'boxed': {'*': ['C02']}, 'box_merge': {'*': ['C02']}, 'override_simple': {'*': ['C02']}, 'override_enum': {'*': ['C02']},
 }
 # driver-level verdicts (reject / compile / same_as) and compile errors are attributed to:
@@ -150,6 +159,16 @@ def run_schema(T, name, n):
     except subprocess.TimeoutExpired:
         return {'name': name, 'status': 'error', 'why': 'timeout'}
     out = p.stdout
+    if p.returncode < 0 or (p.returncode not in (0, 1) and 'T-' not in out):
+        # the enumerator died (stack overflow / abort inside the generated parser): localise the table
+        tr = subprocess.run([T['harness'], 'enumerate-trace', name, str(n)], capture_output=True, text=True, timeout=3600)
+        last = [l for l in tr.stdout.split('\n') if l.startswith('T-RUN ')]
+        kv = last[-1].split(' kv=', 1)[1].split() if last else []
+        desc = last[-1].split(' kv=')[0][6:] if last else '?'
+        return {'name': name, 'status': 'fail', 'n': n, 'tables': 0, 'valid': 0, 'accepted': 0, 'rejected': 0, 'end_offsets': 0, 'nontrivial': 0,
+                'wall_s': round(time.time() - t0, 2),
+                'fails': [{'label': 'C01', 'what': 'the generated parser did not terminate normally (process died with status %s: stack overflow / abort)' % p.returncode,
+                           'after': len(last), 'tables': desc, 'kv': kv, 'crash': True}]}
     m = re.search(r'T-(PASS|DONE) (\S+) n<=(\d+) tables=(\d+) valid=(\d+) accepted=(\d+) rejected=(\d+) distinct_end_offsets=(\d+) nontrivial=(\d+)', out)
     if not m:
         return {'name': name, 'status': 'error', 'why': (out + p.stderr)[-500:]}
